@@ -81,6 +81,18 @@ pub fn run(out: &mut Out, thorough: bool, seed: u64, _extra: &[String]) {
                 let pl: Vec<u64> = match kind { 5 => pl.iter().enumerate().map(|(i, &x)| if i % 2 == 1 { 0 } else { x }).collect(), 6 => pl.iter().enumerate().map(|(i, &x)| if i % 4 != 0 { 0 } else { x }).collect(), _ => pl };
                 let mut pp = Plaintext::new(); pp.resize(pl.len()); pp.data_mut().copy_from_slice(&pl);
                 out.case(&format!("batch_decode {} {} {}", k, t, fl(&pl)), &format!("dec{}-{}", kind, cls), || fl(&enc.decode_new(&pp)));
+                // SHORT plaintexts (coefficient count below N: what decryption returns when the top coefficients are zero, e.g. for constant
+                // slot vectors) decoded into a USED destination: the stale slots must not be read as coefficients
+                { let short: Vec<u64> = pl[..(r.range(1, n as u64) as usize).min(pl.len())].to_vec();
+                  let mut ps = Plaintext::new(); ps.resize(short.len()); ps.data_mut().copy_from_slice(&short);
+                  let want = enc.decode_new(&ps);
+                  let mut used: Vec<u64> = (0..n).map(|_| 1 + r.below(t - 1)).collect();
+                  enc.decode(&ps, &mut used);
+                  let cst = enc.encode_new(&vec![1 + r.below(t - 1); n]);   // constant vector: its encoding is a constant polynomial
+                  let mut used2: Vec<u64> = enc.decode_new(&p);
+                  enc.decode(&cst, &mut used2);
+                  if used == want && used2 == enc.decode_new(&cst) { out.raw(&format!("!OK batch_decode_short_into_used k={} kind={} # decshort-{}", k, kind, cls)); }
+                  else { out.raw(&format!("!FAIL batch_decode_short_into_used {} {} {} :: decoding a short plaintext into a used destination differs from the returning form # decshort-{}", k, t, fl(&short), cls)); } }
                 // ring isomorphism: sums and negacyclic products of encodings decode to slot-wise sums and products
                 let w = slot_vec(&mut r, n, t, 4);
                 let pw = enc.encode_new(&w);
